@@ -393,6 +393,7 @@ type Caps struct {
 	ChoiceDefaults bool  // choices may name a default case
 	Embeds         bool  // struct-backed nodeutil.Node: some fields are promoted from an embedded struct
 	ConvSlices     bool  // some int32 leaf-lists are []int64 fields
+	NoPlainLeaves  bool  // leaves only as list keys (a store that cannot tell a zero scalar from an unset one and does not ignore zeros)
 	Fixture        *Node // the store holds fixed Go types: schemas are seeded sub-schemas of this one
 }
 
@@ -416,6 +417,9 @@ func (g *gen) name(prefix string) string {
 var enumSets = [][]string{{"red", "green", "blue"}, {"on", "off"}, {"a", "b", "c", "d"}}
 
 func (g *gen) leaf(key bool, keyInt bool) *Node {
+	if !key && g.caps.NoPlainLeaves {
+		return g.leafList()
+	}
 	g.n++
 	l := &Node{Kind: Leaf, Name: g.name("f")}
 	if key {
